@@ -4,7 +4,7 @@ Invariant evaluated *inside* the run by a state machine attached to every
 subscription of every MuxObservable (rxsim.core.ProxyObserver)."""
 from rxsim.runner import Outcome
 from rxsim.program import Gen, Flags, St, ops_in, depth_of
-from rxsim.pipesim import run_mux
+from rxsim.pipesim import run_mux, run_multi_source
 from rxsim.workload import gen_events, interleaving_degree
 from .common import PipelineCheck, shape_of, find_nodes
 
@@ -18,7 +18,7 @@ class C03(PipelineCheck):
             'distinct = distinct (program, resolved schedule) pairs among the non-trivial ones')
     assumptions = ['about one case in eight injects user-function failures (fault plan of C13) so that OnErrorMux crosses boundaries too; after on_error nothing is demanded',
                    'the class-level patch of MuxObservable.__init__ sees every multiplexed boundary']
-    probe_names = ('cold_source_emitting_during_subscribe', 'with_item_errors', 'inside_tee', 'nested_window', 'empty_source', 'stride_gt_window', 'window_gt_stream',
+    probe_names = ('sources_sharing_one_store', 'cold_source_emitting_during_subscribe', 'with_item_errors', 'inside_tee', 'nested_window', 'empty_source', 'stride_gt_window', 'window_gt_stream',
                    'group_emptied_by_filter', 'labels>=12')
 
     def flags(self):
@@ -31,6 +31,13 @@ class C03(PipelineCheck):
             c = C13.gen(rng, tier)
             return {'program': c['program'], 'events': c['events'], 'end': 'complete', 'style': c['style'], 'faults': c['faults']}
         parties, maxev = self.sizes(rng, tier)
+        if rng.random() < 0.08:
+            # with_store(store, sources=[...]): two or three hot sources with their own pipelines share one store
+            g2 = Gen(rng, weights={'group_by': 5, 'roll': 5, 'split': 4, 'time_split': 2, 'tee_map': 3, 'progress': 0}, max_nest=2,
+                     small=True)
+            progs = [g2.pipeline(St('rec', True), Flags(), rng.choice([1, 2]), rng.choice([1, 2, 3])) for _ in range(rng.choice([2, 2, 3]))]
+            events, style = gen_events(rng, max(2, min(parties, 6)), min(maxev, 60), p_close=0.2)
+            return {'program': progs[0], 'more_sources': progs[1:], 'events': events, 'end': 'complete', 'style': style}
         if rng.random() < 0.06:
             parties = 0
         g = Gen(rng, weights={'group_by': 6, 'roll': 6, 'split': 5, 'time_split': 5, 'tee_map': 6, 'progress': 0,
@@ -50,7 +57,34 @@ class C03(PipelineCheck):
         return {'program': program, 'events': events, 'end': 'complete', 'style': style,
                 'driver': 'cold' if rng.random() < 0.15 else 'hot'}
 
+    def valid(self, case):
+        if not PipelineCheck.valid(self, case):
+            return False
+        from rxsim.program import valid as _valid
+        return all(_valid(p, St('rec', True), self.flags()) for p in case.get('more_sources') or ())
+
+    def execute_multi(self, case):
+        out = Outcome()
+        programs = [case['program']] + list(case['more_sources'])
+        ctx, finals, escaped = run_multi_source(programs, case['events'])
+        for label, what, key, seq in ctx.breaches:
+            out.add(what, label, {'key': key, 'source_event': seq, 'sources_sharing_one_store': len(programs)})
+        if not ctx.aborted and not ctx.breaches and (escaped is not None or any(f.terminal and f.terminal[0] == 'error' for f in finals)):
+            out.add('raised', 'with_store(sources=)', {'error': repr(escaped) if escaped is not None else
+                                                       [f.terminal for f in finals if f.terminal and f.terminal[0] == 'error'][:1]})
+        creates = sum(b.ncreate for b in ctx.bounds)
+        out.nontrivial = creates >= 4 and not ctx.aborted
+        out.shape = (shape_of(case), repr(case['more_sources']))
+        out.steps = len(case['events']) + 1
+        out.ticks = case['events'][-1]['t'] if case['events'] else 0
+        out.digest = repr(ctx.breaches) + repr([f.terminal for f in finals]) + repr([(b.label, b.count) for b in ctx.bounds])
+        out.probes['sources_sharing_one_store'] += 1
+        out.probes['boundaries'] += len(ctx.bounds)
+        return out
+
     def execute(self, case):
+        if case.get('more_sources'):
+            return self.execute_multi(case)
         out = Outcome()
         ctx, final, escaped = run_mux(case['program'], case['events'], case['end'], monitor=True, notaps=True,
                                       fail=case.get('faults'), driver=case.get('driver', 'hot'))
